@@ -3,6 +3,7 @@ package keymap
 import (
 	"sort"
 	"strings"
+	"unicode/utf8"
 
 	"github.com/reeflective/readline/inputrc"
 	"github.com/reeflective/readline/internal/core"
@@ -73,6 +74,15 @@ func MatchMain(eng *Engine) (bind inputrc.Bind, command func(), prefix bool) {
 		core.MatchedPrefix(eng.keys, read...)
 	} else {
 		core.MatchedKeys(eng.keys, read)
+	}
+
+	// Keys are matched against binds byte by byte, so the bytes of a
+	// multibyte (UTF-8) character never match anything: when the bytes
+	// we just read are the start of one, gather the whole character and
+	// insert it if the keymap is one in which unbound text is inserted.
+	if command == nil && !prefix && len(read) > 0 && read[0] >= utf8.RuneSelf &&
+		(eng.IsEmacs() || eng.main == ViInsert || eng.nonIncSearch) {
+		bind, command, prefix = eng.matchMultibyte(read)
 	}
 
 	// Non-incremental search mode should always insert the keys
@@ -156,6 +166,66 @@ func (m *Engine) dispatchKeys(binds map[string]inputrc.Bind) (bind inputrc.Bind,
 	}
 
 	return m.active, prefix, read, matched
+}
+
+// matchMultibyte is called when the first bytes of a UTF-8 encoded character have been read
+// and matched no bind. It consumes the remaining bytes of the character and returns the
+// self-insert command with this character as its key. If the character is not complete
+// yet, its bytes are put back and we report a prefix match, so that more keys are read.
+// Invalid sequences are dropped, like any other undefined key.
+func (m *Engine) matchMultibyte(read []byte) (bind inputrc.Bind, command func(), prefix bool) {
+	var size int
+
+	first := read[0]
+
+	switch {
+	case first >= 0xC2 && first <= 0xDF:
+		size = 2
+	case first >= 0xE0 && first <= 0xEF:
+		size = 3
+	case first >= 0xF0 && first <= 0xF4:
+		size = 4
+	default:
+		return bind, nil, false
+	}
+
+	if len(read) > size {
+		return bind, nil, false
+	}
+
+	for _, key := range read[1:] {
+		if key&0xC0 != 0x80 {
+			return bind, nil, false
+		}
+	}
+
+	char := append([]byte{}, read...)
+
+	for len(char) < size {
+		key, empty := core.PeekKey(m.keys)
+		if empty {
+			core.MatchedPrefix(m.keys, char...)
+			return bind, nil, true
+		}
+
+		if key&0xC0 != 0x80 {
+			return bind, nil, false
+		}
+
+		core.PopKey(m.keys)
+		char = append(char, key)
+	}
+
+	if !utf8.Valid(char) {
+		return bind, nil, false
+	}
+
+	core.MatchedKeys(m.keys, char)
+
+	bind = inputrc.Bind{Action: "self-insert"}
+	m.active = bind
+
+	return bind, m.resolve(bind), false
 }
 
 func (m *Engine) matchBind(keys []byte, binds map[string]inputrc.Bind) (inputrc.Bind, []inputrc.Bind) {
